@@ -9,6 +9,7 @@ def main():
     hb = vlib.build_harness("dev")
     nsh = 16
     jobs = [("gen", sh) for sh in ([chk.seed % nsh, (chk.seed + 5) % nsh, (chk.seed + 11) % nsh] if q else range(nsh))]
+    jobs += [("rank", sh) for sh in range(4)]
     base = os.path.join(chk.outdir, "walk")
     nf = 4 if q else 16
     vlib.harness(hb, ["walk", "--seed", chk.seed, "--events", 2500 if q else 20000, "--files", nf, "--out", base])
@@ -19,12 +20,13 @@ def main():
         if kind == "walk":
             p = "%s.%d" % (base, sh)
         else:
-            cfg = os.path.join(chk.outdir, "gsee_%d.cfg" % sh)
-            games.gen_cfg(cfg, {"SHARD": sh, "NSHARDS": nsh, "DENSITY": 8 if q else 1}, "INIT Init\nNEXT Next\n")
+            cfg = os.path.join(chk.outdir, "gsee_%s_%d.cfg" % (kind, sh))
+            games.gen_cfg(cfg, {"SHARD": sh, "NSHARDS": 4 if kind == "rank" else nsh, "DENSITY": 8 if q else 1,
+                                "MODE": "rank" if kind == "rank" else "general"}, "INIT Init\nNEXT Next\n")
             g = vlib.tlc("Gen_See", cfg=cfg, timeout=3400, xmx="2g")
             if g.error:
                 raise vlib.ToolError("Gen_See: " + g.error)
-            p = os.path.join(chk.outdir, "gsee_%d.ndjson" % sh)
+            p = os.path.join(chk.outdir, "gsee_%s_%d.ndjson" % (kind, sh))
             vlib.write_ndjson(p, [d for t, d in g.reports if t == "GEN"])
         ev = os.path.join(chk.outdir, "see_%s_%d.ndjson" % (kind, sh))
         o = json.loads(vlib.harness(hb, ["see", p, ev]))
@@ -50,7 +52,7 @@ def main():
             det = d["detail"]
             chk.violation("%s|%s|%s" % (d["what"], det.get("fen"), det.get("mv")), d["what"], d,
                           replay={"kind": "see-position", "fen": det.get("fen"), "events": ev})
-    if by.get("gen", 0) == 0 or by.get("walk", 0) == 0 or tot["losing"] == 0:
+    if by.get("gen", 0) == 0 or by.get("rank", 0) == 0 or by.get("walk", 0) == 0 or tot["losing"] == 0:
         raise vlib.ToolError("vacuous SEE run: %s %s" % (tot, by))
     chk.cov.update({
         "states": tot["positions"], "transitions": tot["captures"], "traces_validated_against_impl": len(jobs),
